@@ -281,8 +281,13 @@ pub struct Finding {
     pub what_fails: String,
 }
 
+/// Root of the verification tree (`/verif`; a private copy sets VERIF_ROOT while a check is being developed)
+pub fn root() -> String {
+    std::env::var("VERIF_ROOT").unwrap_or_else(|_| "/verif".to_string())
+}
+
 pub fn load_findings() -> Vec<Finding> {
-    let path = "/verif/known_findings.json";
+    let path = &format!("{}/known_findings.json", root());
     let text = match std::fs::read_to_string(path) {
         Ok(t) => t,
         Err(_) => return Vec::new(),
@@ -360,7 +365,7 @@ pub fn finish(ctx: &Ctx, mut rep: Report) -> i32 {
     let mut exit = 0;
     let mut unknown = 0;
     let mut known_seen = Vec::new();
-    let _ = std::fs::create_dir_all("/verif/replays");
+    let _ = std::fs::create_dir_all(format!("{}/replays", root()));
     let mut viol_list = Vec::new();
     let mut n = 0;
     // stable order: by lowest index then signature
@@ -388,7 +393,7 @@ pub fn finish(ctx: &Ctx, mut rep: Report) -> i32 {
         } else {
             unknown += 1;
             n += 1;
-            let path = format!("/verif/replays/{}-{}.txt", ctx.prop, n);
+            let path = format!("{}/replays/{}-{}.txt", root(), ctx.prop, n);
             let body = format!(
                 "property: {}\nsignature: {}\ndetail: {}\ncases_with_this_signature: {}\n---\n{}",
                 ctx.prop, sig, viol.detail, count, viol.replay
@@ -447,8 +452,8 @@ pub fn finish(ctx: &Ctx, mut rep: Report) -> i32 {
         ("violations", Json::Int(unknown)),
         ("jobs", ctx.jobs.into()),
     ]);
-    let _ = std::fs::create_dir_all("/verif/evidence");
-    let path = format!("/verif/evidence/{}.json", ctx.prop);
+    let _ = std::fs::create_dir_all(format!("{}/evidence", root()));
+    let path = format!("{}/evidence/{}.json", root(), ctx.prop);
     if let Err(e) = std::fs::write(&path, ev.to_string_pretty()) {
         eprintln!("machinery error: cannot write {}: {}", path, e);
         return 2;
@@ -499,4 +504,18 @@ pub fn thread_cpu_s() -> f64 {
         clock_gettime(3, &mut ts);
     }
     ts.tv_sec as f64 + ts.tv_nsec as f64 * 1e-9
+}
+
+/// Verdict for `--replay`: prints the violations of the replayed case; never rewrites evidence.
+pub fn finish_replay(ctx: &Ctx, acc: &Acc) -> i32 {
+    for (sig, (_, _, v)) in &acc.viol {
+        println!("VIOLATION property={} replay=(replayed) signature={}", ctx.prop, sig);
+        println!("  detail: {}", one_line(&v.detail, 600));
+    }
+    if acc.viol.is_empty() {
+        println!("replay: property held on this case");
+        0
+    } else {
+        1
+    }
 }
